@@ -64,29 +64,27 @@ def check(ctx):
         _kept.append(e2)
         return e2
     req_expr = inl(req_expr)
-    ctx.require(isinstance(req_expr, ast.IfExp) and "is_typed_dict" in norm(req_expr.test), "required expression of fields changed shape (expected `field.required if <typed dict> else ...`)")
-    td_expr, plain_expr = req_expr.body, req_expr.orelse
     try:
         bad = None
         count = 0
         for v in valuations(ATOMS, consistent):
-            if v["typed_dict"] or v["exclude_unset"]:
+            if v["exclude_unset"]:
                 continue
             count += 1
             flags = fm.flags(v)
             eff = fm.effective(flags, v)
-            may_omit = fm.complex_selected(v) and any(eff.values())
-            required_schema = fm.ev(plain_expr, v)
+            # a TypedDict key that is not required may simply be absent; any field may be omitted by an effective flag
+            may_omit = (fm.complex_selected(v) and any(eff.values())) or (v["typed_dict"] and not v["required"])
+            required_schema = fm.ev(req_expr, v)
             if may_omit and required_schema and bad is None:
-                bad = (v, [k for k, x in eff.items() if x])
-        ctx.check(bad is None, "C07.R2", f"{props.qualname}:field-required", plain_expr,
-                  (f"for a field with [{show(bad[0])}] the serializer may omit it (flag(s) {bad[1]}) but the schema computes required = `{short(plain_expr, 100)}` = True: the serialized object misses a required property") if bad else "",
-                  props, plain_expr, detail=f"{count} valuations: may-omit => not required")
+                bad = (v, [k for k, x in eff.items() if x] or ["absent key"])
+        ctx.check(bad is None, "C07.R2", f"{props.qualname}:field-required", req_expr,
+                  (f"for a field with [{show(bad[0])}] the serializer may omit it ({bad[1]}) but the schema computes required = `{short(req_expr, 100)}` = True: the serialized object misses a required property") if bad else "",
+                  props, req_expr, detail=f"{count} valuations (TypedDict keys included): may-omit => not required")
     except Unknown as err:
         raise AnalysisError(f"C07 table (fields): {err}")
-    # TypedDict presence
-    ctx.check(norm(td_expr) == "field.required" and norm(fm.args["required"]) == "field.required", "C07.R2", f"{props.qualname}:typed-dict-required", td_expr,
-              f"TypedDict keys: schema required is `{norm(td_expr)}` while ComplexField.required receives `{norm(fm.args['required'])}`", props, td_expr, detail="field.required on both sides")
+    ctx.check(norm(fm.args["required"]) == "field.required", "C07.R2", f"{props.qualname}:typed-dict-required", fm.complex_call,
+              f"ComplexField.required (presence of TypedDict keys) receives `{norm(fm.args['required'])}`", props, fm.complex_call, detail="field.required")
     cf_ur = model.func(f"{SMETH}.ComplexField.update_result")
     ctx.check("self.required or self.name in obj" in norm(cf_ur.node), "C07.R2", cf_ur.qualname + ":typed-dict-presence", cf_ur.node.body[0],
               "ComplexField no longer emits a TypedDict key iff it is required or present", cf_ur, cf_ur.node, detail="(self.required or self.name in obj) if self.typed_dict")
@@ -143,17 +141,18 @@ def check(ctx):
 
 
 def mutants(mb):
+    mb.add_text("typed-dict-required-ignores-omission", "apischema/json_schema/schema.py", "                (field.required or not is_typed_dict(get_origin_or_type(tp)))\n                and not field.skippable(\n                    settings.serialization.exclude_defaults,\n                    settings.serialization.exclude_none,\n                )\n", "                field.required\n                if is_typed_dict(get_origin_or_type(tp))\n                else not field.skippable(\n                    settings.serialization.exclude_defaults,\n                    settings.serialization.exclude_none,\n                )\n", "C07.R2", "field-required")
     mb.add_text("neg-settings-hoisted", "apischema/json_schema/schema.py", "                not is_union_of(types[\"return\"], UndefinedType)\n                and not (\n                    settings.serialization.exclude_none\n                    and is_union_of(types[\"return\"], NoneType)\n                ),", "                not is_union_of(types[\"return\"], UndefinedType)\n                and not (\n                    settings.serialization.exclude_none and is_union_of(types[\"return\"], NoneType)\n                ),", negative=True)
     mb.add_text("serialized-required-wrong-setting", "apischema/json_schema/schema.py", "                    settings.serialization.exclude_none\n                    and is_union_of(types[\"return\"], NoneType)", "                    settings.serialization.exclude_defaults\n                    and is_union_of(types[\"return\"], NoneType)", "C07.R2", "serialized-required")
     S = "apischema/serialization/__init__.py"
     J = "apischema/json_schema/schema.py"
     mb.add_text("serialized-skip-none-defaults", S, "                        is_union_of(ret_type, NoneType) and self.exclude_none,\n", "                        is_union_of(ret_type, NoneType)\n                        and (self.exclude_none or self.exclude_defaults),\n", "C07.R2", "serialized-required")
     mb.add_text("serialized-required-ignores-none", J, "                not is_union_of(types[\"return\"], UndefinedType)\n                and not (\n                    settings.serialization.exclude_none\n                    and is_union_of(types[\"return\"], NoneType)\n                ),\n", "                not is_union_of(types[\"return\"], UndefinedType),\n", "C07.R2", "serialized-required")
-    mb.add_text("schema-skippable-crossed", J, "                else not field.skippable(\n                    settings.serialization.exclude_defaults,\n                    settings.serialization.exclude_none,\n                )", "                else not field.skippable(\n                    settings.serialization.exclude_none,\n                    settings.serialization.exclude_defaults,\n                )", "C07.R", "")
-    mb.add_text("schema-required-field-required", J, "                else not field.skippable(\n                    settings.serialization.exclude_defaults,\n                    settings.serialization.exclude_none,\n                )", "                else field.required", "C07.R2", "field-required")
+    mb.add_text("schema-skippable-crossed", J, "                and not field.skippable(\n                    settings.serialization.exclude_defaults,\n                    settings.serialization.exclude_none,\n                )", "                and not field.skippable(\n                    settings.serialization.exclude_none,\n                    settings.serialization.exclude_defaults,\n                )", "C07.R", "")
+    mb.add_text("schema-required-field-required", J, "                and not field.skippable(\n                    settings.serialization.exclude_defaults,\n                    settings.serialization.exclude_none,\n                )", "                and field.required", "C07.R2", "field-required")
     mb.add_text("skippable-drops-nau", "apischema/objects/fields.py", "            or self.none_as_undefined\n", "", "C07.R2", "field-required")
     mb.add_text("skippable-drops-undefined-default", "apischema/objects/fields.py", "            or (not self.required and self.get_default() is Undefined)\n", "", "C07.R2", "field-required")
-    mb.add_text("typed-dict-required-true", J, "                field.required\n                if is_typed_dict(get_origin_or_type(tp))", "                True\n                if is_typed_dict(get_origin_or_type(tp))", "C07.R2", "typed-dict-required")
+    mb.add_text("typed-dict-required-true", J, "                (field.required or not is_typed_dict(get_origin_or_type(tp)))\n", "                True\n", "C07.R2", "field-required")
     mb.add_text("ser-filters-readonly", "apischema/objects/visitor.py", "class SerializationObjectVisitor(ObjectVisitor[Result]):\n    _field_kind_filtered = FieldKind.WRITE_ONLY", "class SerializationObjectVisitor(ObjectVisitor[Result]):\n    _field_kind_filtered = FieldKind.READ_ONLY", "C07.R3", "SerializationObjectVisitor")
     mb.add_text("neg-required-var", J, "                not is_union_of(types[\"return\"], UndefinedType)\n                and not (\n                    settings.serialization.exclude_none\n                    and is_union_of(types[\"return\"], NoneType)\n                ),\n",
                 "                not (\n                    is_union_of(types[\"return\"], UndefinedType)\n                    or (\n                        settings.serialization.exclude_none\n                        and is_union_of(types[\"return\"], NoneType)\n                    )\n                ),\n", negative=True)
